@@ -317,11 +317,17 @@ def io_check(run, suites, judge_props, snapshots=True, conc_runs=None, design=No
         traces, mm = io.record(r['out'], hc, nkeys, s['name'], limit=limit, snapshots=snapshots)
         os.remove(r['out'])
         se.judge(mm)
+        jobs = []
         for i, (t, h) in enumerate(traces):
             if os.path.getsize(t) == 0:
                 continue
             first_trace = first_trace or t
-            io.judge_trace(t, h, 'tv-%s-%d' % (s['name'], i))
+            jobs.append((t, h, 'tv-%s-%d' % (s['name'], i)))
+        # one single-threaded TLC per trace, several at a time
+        from concurrent.futures import ThreadPoolExecutor
+        with ThreadPoolExecutor(max_workers=max(1, min(6, NCPU // 2))) as ex:
+            for f in [ex.submit(io.judge_trace, *j) for j in jobs]:
+                f.result()
     # schedules: the file-operation traces of concurrent runs (C12 over schedules), with a quiescence
     # point after every burst of operations
     for i, cr in enumerate(conc_runs or []):
